@@ -155,7 +155,7 @@ func (r *RequireModule) loadIndex(modpath string) (module *js.Object, err error)
 
 func (r *RequireModule) loadAsDirectory(modpath string) (module *js.Object, err error) {
 	p := r.resolvePath(modpath, "package.json")
-	buf, err := r.r.getSource(p)
+	buf, err := r.r.getManifest(p)
 	if err != nil {
 		return r.loadIndex(modpath)
 	}
